@@ -4,6 +4,8 @@ cd "$(dirname "$0")/.."
 id=$1; src=/tmp/seed_${id}_out; dst=seeded/$id
 mkdir -p $dst
 wt=/tmp/conf_$id
+export XDG_CACHE_HOME=/tmp/conf_$id.cache   # the library's disk cache must never be shared with runs of other trees
+rm -rf $XDG_CACHE_HOME; mkdir -p $XDG_CACHE_HOME
 git -C /repo worktree remove --force $wt >/dev/null 2>&1
 git -C /repo worktree add --detach $wt HEAD -q || exit 2
 for k in 1 2; do
@@ -12,11 +14,12 @@ for k in 1 2; do
   if ! git -C $wt apply $src/patch$k.diff; then echo "SEED $id/$k PATCH-DOES-NOT-APPLY"; continue; fi
   files=$(git -C $wt diff --name-only | tr '\n' ' ')
   ( cd $wt && PYTHONPATH=$wt timeout 600 /venv/bin/python $src/demo$k.py >/tmp/conf_$id.out 2>&1 ); rc1=$?
-  tests=$( cd $wt && PYTHONPATH=$wt timeout 1500 /venv/bin/python -m pytest -q -p no:cacheprovider --timeout=900 --continue-on-collection-errors 2>&1 | grep -E "passed|failed" | tail -1 )
+  tests=$( cd $wt && PYTHONPATH=$wt timeout 1500 /venv/bin/python -m pytest -q -p no:cacheprovider --timeout=900 --continue-on-collection-errors 2>&1 | grep -E "^FAILED|passed|failed" | tr '\n' ' ' | cut -c1-300 )
   echo "SEED $id/$k pristine_rc=$rc0 patched_rc=$rc1 files: $files tests: $tests | $(grep -m1 'PROPERTY VIOLATED' /tmp/conf_$id.out | cut -c1-160)"
   cp $src/patch$k.diff $src/demo$k.py $dst/
   git -C $wt checkout -q -- .
 done
 cp $src/meta.json $dst/ 2>/dev/null
 rm -f /tmp/conf_$id.out
+rm -rf /tmp/conf_$id.cache
 git -C /repo worktree remove --force $wt
